@@ -44,6 +44,25 @@ Theorem C18_leave_empty_or_unknown_refused :
 Proof. exact leave_refused. Qed.
 Print Assumptions C18_leave_empty_or_unknown_refused.
 
+(* joining "any seat" (seat id -1): it reports that no seat is available only when every seat is occupied or
+   reserved, and otherwise puts the player on a seat that was empty and not reserved (held out of play until
+   he sits in), leaving every other seat as it was *)
+From PF Require Import ProofsSeat.
+Theorem C18_join_any_none_available_only_when_true :
+  forall s c, sm_step s (OJoin (-1) c) = (s, SErrNoAvailableSeat, -1) ->
+    sm_max s = 0%nat \/ forall i, (i < sm_max s)%nat -> s_occ (get_seat s i) = true \/ s_reserved (get_seat s i) = true.
+Proof. exact join_any_none_available. Qed.
+Print Assumptions C18_join_any_none_available_only_when_true.
+
+Theorem C18_join_any_takes_a_free_seat :
+  forall s c s' seat, sm_step s (OJoin (-1) c) = (s', SOk, seat) ->
+    seat = c /\ in_range s c = true /\
+    s_occ (get_seat s (Z.to_nat c)) = false /\ s_reserved (get_seat s (Z.to_nat c)) = false /\
+    s_occ (get_seat s' (Z.to_nat c)) = true /\ playable (get_seat s' (Z.to_nat c)) = false /\
+    forall j, j <> Z.to_nat c -> get_seat s' j = get_seat s j.
+Proof. exact join_any_takes_a_free_seat. Qed.
+Print Assumptions C18_join_any_takes_a_free_seat.
+
 (* no sequence of seat operations makes the seat manager crash: no operation on any state (hence
    on any state of any history) ends in the panic outcome *)
 From PF Require Import ProofsSeat.
